@@ -590,8 +590,7 @@ theorem recreateList_spec (P : Prop) (ser : Ser) (fuel : Nat) :
     exact sat_pure _ (closedList_cons hy hys)
 end
 
-/-- depth never grows under `applyExt` (an extension leaf becomes another leaf) -/
-def DepthLe (d : Nat) (v : Val) : Prop := depth v ≤ d
+/-! `applyExt` keeps closedness and never increases the depth (an extension leaf becomes another leaf) -/
 
 mutual
 theorem applyExt_spec (hEr : ∀ e, e ≠ Err.fuel → Er e) :
